@@ -209,7 +209,7 @@ def abstract_nl(term, memo):
                 acc = c * acc
             r = acc
     if r is None:
-        r = term.decl()(*kids) if any(a is not b for a, b in zip(kids, term.children())) else term
+        r = term.decl()(*kids) if any(a.get_id() != b.get_id() for a, b in zip(kids, term.children())) else term
     memo[i] = r
     return r
 
@@ -253,7 +253,7 @@ def prove(assumptions, goal, timeout_ms=None, cvc5_first=False):
         return check_sat(fs, timeout_ms, cvc5_first=True)
     _NL_KEEP.extend(fs)  # keep the terms alive: the memo is keyed by ast id
     abstracted = [abstract_nl(f, _NL_MEMO) for f in fs]
-    if any(a is not f for a, f in zip(abstracted, fs)):
+    if any(a.get_id() != f.get_id() for a, f in zip(abstracted, fs)):
         v, s = check_sat(abstracted, timeout_ms, want_model=False, fallback=False)
         if v.status == "unsat":
             v.solver += "(nl-abstracted)"
